@@ -109,6 +109,9 @@ class Integration:
         return self._post_aiohttp(path, body, headers)
 
     def _post_aiohttp(self, path, body, headers):
+        """the request is handled by the real aiohttp application and the response is WRITTEN through aiohttp's own
+        prepare() / write_eof() into a recording payload writer: the reply is what reached the writer (a response object
+        that was already sent once writes nothing again - exactly what happens on a real connection)"""
         app = self.rpc.app
 
         async def go():
@@ -117,19 +120,34 @@ class Integration:
             payload = streams.StreamReader(protocol, 2 ** 16, loop=loop)
             payload.feed_data(body)
             payload.feed_eof()
-            req = make_mocked_request('POST', path, headers=headers, payload=payload, app=app)
+            writer = mock.Mock()
+            for name in ('write_headers', 'write', 'write_eof', 'drain'):
+                setattr(writer, name, mock.AsyncMock())
+            req = make_mocked_request('POST', path, headers=headers, payload=payload, app=app, writer=writer)
             try:
                 resp = await app._handle(req)
             except web.HTTPException as e:      # by aiohttp's contract a raised HTTPException is the response
                 resp = e
-            return resp
+            await resp.prepare(req)
+            await resp.write_eof()
+            return resp, writer
         loop = VLoop()
         try:
             try:
-                resp = loop.run(go())
+                resp, writer = loop.run(go())
             except Exception as e:   # noqa
                 return Reply(None, None, b'', raised='%s: %s' % (type(e).__name__, e))
         finally:
             loop.close()
-        body = resp.body if isinstance(getattr(resp, 'body', None), (bytes, bytearray)) else (resp.text or '').encode()
-        return Reply(resp.status, media(resp.headers.get('Content-Type')), bytes(body or b''), raw_content_type=resp.headers.get('Content-Type'))
+        if not writer.write_headers.call_args:
+            return Reply(None, None, b'', raised='no HTTP reply was written (the response object had already been sent for an earlier request)')
+        status_line, hdrs = writer.write_headers.call_args[0][:2]
+        chunks = [c[0][0] for c in writer.write.call_args_list if c[0]]
+        if writer.write_eof.call_args and writer.write_eof.call_args[0]:
+            chunks.append(writer.write_eof.call_args[0][0])
+        data = b''.join(bytes(c) for c in chunks if c)
+        try:
+            status = int(status_line.split()[1])
+        except Exception:   # noqa
+            status = resp.status
+        return Reply(status, media(hdrs.get('Content-Type')), data, raw_content_type=hdrs.get('Content-Type'))
